@@ -311,6 +311,14 @@ def expand_locals(f, e, limit=16):
         if isinstance(x, ast.Name) and x.id not in params and depth < 4:
             defs = [s for s in own_nodes(f.node) if isinstance(s, ast.Assign) and any(is_name(t, x.id) for t in s.targets)]
             aug = [s for s in own_nodes(f.node) if isinstance(s, (ast.AugAssign, ast.For)) and x.id in {y.id for y in ast.walk(s.target) if isinstance(y, ast.Name)}]
+            loops = [s for s in aug if isinstance(s, ast.For) and is_name(s.target, x.id) and isinstance(s.iter, (ast.Tuple, ast.List))]
+            if not defs and aug and len(loops) == len(aug):
+                # the variable of a loop over a literal sequence of expressions stands for each of them
+                out = []
+                for l in loops:
+                    for el in l.iter.elts:
+                        out.extend(alts(el, depth + 1))
+                return out
             if defs and not aug:
                 out = []
                 for d in defs:
@@ -890,6 +898,68 @@ def rule_api_unreachable(em, rep, rid):
     return keys
 
 
+def rule_checked_name_is_looked_up(em, rep, rid):
+    rep.rule(rid, 'in query() the predicate name that is tested against the reserved names is the very value the lookup keys are '
+                  'built from (the parameter itself or plain copies of it, also when handed to a helper - no slicing, splitting, '
+                  'stripping or mapping in between), and a key without an arity suffix is never looked up: otherwise a name that '
+                  'passes the test can be turned into the name of an API function afterwards')
+    q = _method_view(em, 'query')
+    params = q.params[1:]
+    if not params:
+        raise AnalysisError('anchor vanished: parameters of YP.query')
+    pname = params[0]
+
+    def plain_origin(f, name, seen=None):
+        """the parameter of f a local is a plain copy of, '' for a value computed from something, None when undecided"""
+        seen = seen if seen is not None else set()
+        stores = [x for x in own_nodes(f.node) if isinstance(x, ast.Name) and x.id == name and isinstance(x.ctx, ast.Store)]
+        if name in f.all_params:
+            return name if not stores else ''
+        if name in seen:
+            return None
+        seen.add(name)
+        defs = [s_ for s_ in own_nodes(f.node) if isinstance(s_, ast.Assign) and any(is_name(t, name) for t in s_.targets)]
+        if not defs or len(defs) != len(stores):
+            return None
+        outs = {plain_origin(f, d.value.id, seen) if isinstance(d.value, ast.Name) else '' for d in defs}
+        return outs.pop() if len(outs) == 1 else ''
+    # functions that look names up: query itself (helpers pasted in) and the helpers that could not be pasted in, with the
+    # parameter that receives query's name
+    work = [(q, pname)]
+    for c, cs in em.cg.calls.get(q.origin if hasattr(q, 'origin') else q, ()):
+        for h in cs:
+            if h.module.name != 'engine' or h.is_generator or h in getattr(q, 'inlined', ()) or h.name == 'match_dynamic':
+                continue
+            hp = h.params[1:] if h.is_method else h.params
+            for p_ in hp:
+                a = arg_for_param(c, h, p_)
+                if is_name(a) and plain_origin(q, a.id) == pname:
+                    work.append((em.view(h), p_))
+    total = 0
+    for f, nm in work:
+        sites = [(n, k) for _, n, kind, k in context_key_sites(em, include_inlined=True, views=[f]) if kind == 'read']
+        total += len(sites)
+        for n, k in sites:
+            key = '%s:%s' % (f.qname, norm(n)[:50])
+            problems = []
+            for ex in expand_locals(f, k):
+                for x in [y for y in ast.walk(ex) if isinstance(y, ast.Name) and isinstance(y.ctx, ast.Load)]:
+                    par = getattr(x, '_parent', None)
+                    if isinstance(par, ast.Call) and par.func is x:
+                        continue
+                    if plain_origin(f, x.id) == '' and any(plain_origin(f, z.id) in (nm, '') for z in ast.walk(ex) if isinstance(z, ast.Name)):
+                        problems.append('the key %s is built from %s, a value computed from the name after it was tested against the '
+                                        'reserved names - not the name that was tested' % (norm(ex)[:40], x.id))
+                if isinstance(ex, ast.Name) and plain_origin(f, ex.id) in (nm, ''):
+                    problems.append('the bare name is looked up (%s), without an arity suffix: an API function of that name is found '
+                                    'when the reserved-name test was made on another spelling' % ex.id)
+            if problems:
+                rep.violation(rid, key, problems[0], f.loc(n))
+            else:
+                rep.ok(rid, key, 'keys are built from the tested name itself, with an arity suffix', f.loc(n))
+    rep.minimum('context lookups on behalf of query()', total, 1)
+
+
 def context_literal_keys(em):
     f = em.repo.lookup_method(em.YP, '_set_default_eval_context')
     cands = [f] if f else []
@@ -900,8 +970,11 @@ def context_literal_keys(em):
                 keys = []
                 for k in n.value.keys:
                     if not (isinstance(k, ast.Constant) and isinstance(k.value, str)):
-                        raise AnalysisError('non-constant key in the default context literal')
+                        keys = None         # computed keys / ** of another mapping: the set-up is evaluated instead (below)
+                        break
                     keys.append(k.value)
+                if keys is None:
+                    continue
                 em._context_literal = n.value
                 return keys
     lit = _context_by_evaluation(em, cands)
@@ -918,7 +991,7 @@ def _context_by_evaluation(em, cands):
     for c in cands:
         if not any(isinstance(n, ast.Attribute) and isinstance(n.ctx, ast.Store) and is_self_attr(n, 'eval_context') for n in own_nodes(c.node)):
             continue
-        sx = SymEx(em.repo, inline=lambda g: g.cls is None and g.module.name == 'engine', max_depth=3)
+        sx = SymEx(em.repo, inline=lambda g: g.module.name == 'engine' and g.name != 'register_function', max_depth=3)
         sx.max_steps = 20000
         try:
             outs = sx.run(c, [Sym(p) for p in c.params[1:]], PathState())
